@@ -77,9 +77,9 @@ pub fn install_quiet_panic_hook() {
 }
 
 pub fn real_call<T>(f: impl FnOnce() -> T) -> std::thread::Result<T> {
-    IN_REAL.with(|x| x.set(true));
+    let prev = IN_REAL.with(|x| x.replace(true));
     let r = std::panic::catch_unwind(std::panic::AssertUnwindSafe(f));
-    IN_REAL.with(|x| x.set(false));
+    IN_REAL.with(|x| x.set(prev));
     r
 }
 
